@@ -68,22 +68,25 @@ def canon(v):
 
 
 def variants(name, cls, desc):
-    """Argument variants for one class: list of kwargs dicts (values are Python objects)."""
+    """Argument variants for one class: list of kwargs dicts (values are Python objects).  Always includes an explicit
+    argument EQUAL TO THE CLASS DEFAULT (a block that re-asserts the default inside another block must win) and
+    falsy-but-legal values (0, 0.0, False) where `x or current` / truthiness bugs hide."""
     import torch
     params = [p for p, _ in desc["params"]]
     if params == ["state"]:
         return [{"state": True}, {"state": False}, {}]
     if params == ["value"]:
         if name == "observation_nan_policy":
-            return [{"value": "mask"}, {"value": "fill"}, {"value": "bogus"}]
+            return [{"value": "mask"}, {"value": "ignore"}, {"value": "fill"}, {"value": "bogus"}]
         if name.startswith("_linalg_dtype"):
-            return [{"value": torch.float}, {"value": torch.half}]
-        return [{"value": 7}, {"value": 0.125}]
+            return [{"value": torch.float}, {"value": cls.value()}, {"value": torch.half}]
+        return [{"value": 7}, {"value": cls.value()}, {"value": 0}, {"value": 0.125}]
     if params == ["float_value", "double_value", "half_value"]:
-        return [{"half_value": 0.5}, {"float_value": 0.25}, {"double_value": 0.75, "half_value": 0.5},
-                {"float_value": 0.25, "double_value": 0.75, "half_value": 0.5}, {}]
+        return [{"half_value": 0.5}, {"double_value": 0.0}, {"float_value": 0.25}, {"double_value": 0.75, "half_value": 0.5},
+                {"float_value": 0.25, "double_value": 0.75, "half_value": 0.5}, {"float_value": 0}, {}]
     if params == ["state", "num_probe_vectors"]:
-        return [{"state": True, "num_probe_vectors": 5}, {"state": False}, {"num_probe_vectors": 3}]
+        return [{"state": True, "num_probe_vectors": 5}, {"state": False}, {"num_probe_vectors": 3},
+                {"state": True, "num_probe_vectors": 0}]
     if params == ["covar_root_decomposition", "log_prob", "solves"]:
         return [{"covar_root_decomposition": False}, {"log_prob": False, "solves": False}, {}]
     if params == ["default", "symeig", "cholesky"]:
@@ -368,6 +371,42 @@ def correspondence(ctx, want_driver=True):
             if not same:
                 ctx.fail(f"default:{n}.{oname}", f"outside all blocks {n}.{oname} reports {got!r}; the class documents "
                          f"Default: {txt}", {"class": n, "observer": oname, "documented": txt, "got": repr(got)})
+    # --- spec oracle: the SAME context object entered twice (re-entrant / sequential reuse) still restores the store
+    import warnings as _w2
+    reent = 0
+    for n in w.exported:
+        for kw in variants(n, w.real[n], w.descs[n])[:3]:
+            for shape in ("nested", "nested-raise", "sequential"):
+                try:
+                    with _w2.catch_warnings():
+                        _w2.simplefilter("ignore")
+                        cobj = w.real[n](**kw)
+                        try:
+                            if shape == "sequential":
+                                with cobj:
+                                    pass
+                                with cobj:
+                                    pass
+                            else:
+                                with cobj:
+                                    with cobj:
+                                        if shape == "nested-raise":
+                                            raise _Boom()
+                        except _Boom:
+                            pass
+                except ValueError:
+                    continue
+                reent += 1
+                ctx.case(f"reuse {shape} {n}({kw})", nontrivial=True)
+                final = w.snapshot()
+                if final != base:
+                    for (cn, f), a, b in zip(w.slots, base, final):
+                        if a != b:
+                            ctx.fail(f"leak:{cn}.{f}", f"after using ONE {n}({kw}) object twice ({shape}) {cn}.{f} is "
+                                     f"{w.atoms[int(b)] if b != 'N' else None!r}, was {w.atoms[int(a)] if a != 'N' else None!r}",
+                                     {"class": n, "kwargs": repr(kw), "shape": shape, "field": f"{cn}.{f}"})
+                    w.restore(base_raw)
+    ctx.count("reuse_programs", reent)
     ctx.notes["classes_exercised"] = len(kinds)
     ctx.notes["blocks_per_class_min"] = min(kinds.values()) if kinds else 0
     if not want_driver:
